@@ -1,7 +1,7 @@
 (* C11 - Region algebra behaves as set algebra on pixels.
    Only property theorems here, each closed by [exact] of a lemma proved elsewhere. *)
 From LV Require Import Region.RegionDefs Gen.Funs_C11 Region.RegionProofs0 Region.RegionProofs Region.RegionIter
-     Region.RegionBBox Region.RegionIterMachine.
+     Region.RegionBBox Region.RegionIterMachine Region.RegionPop.
 Local Open Scope Z_scope.
 
 (* Scope of every theorem below: coordinates are mathematical integers (Z).  The C code computes in
@@ -130,9 +130,19 @@ Theorem C11_iter_monotone : forall rx ry r, WF r ->
   allpairs (rect_before rx ry) (rgn_iter rx ry r).
 Proof. exact iter_monotone. Qed.
 
-(* sraRgnPopRect as the library uses it (flags 0, its only call site rfbserver.c): rectangle + rest,
-   nothing lost, nothing added.  The other three flag values are modelled (rgn_pop_rect) and compared
-   with the C code by the correspondence check, but have no theorem. *)
+(* sraRgnPopRect, all four flag values (bit 0 = bottom to top, bit 1 = right to left): the region
+   splits into the popped rectangle and a well-formed rest, nothing lost, nothing added.
+   C11_poprect_sem is the instance the library uses (flags 0, rfbserver.c). *)
+Theorem C11_poprect_sem_all : forall r right2left bottom2top, WF r ->
+  match rgn_pop_rect r right2left bottom2top with
+  | None => r = []
+  | Some (rc, r') =>
+      WF r' /\
+      (let '(x1, y1, x2, y2) := rc in x1 < x2 /\ y1 < y2) /\
+      forall x y, rgn_mem r x y = rect_mem rc x y || rgn_mem r' x y
+  end.
+Proof. exact pop_rect_sem_all. Qed.
+
 Theorem C11_poprect_sem : forall r, WF r ->
   match rgn_pop_rect r false false with
   | None => r = []
